@@ -335,6 +335,16 @@ func (u *Unit) libModel(st *State, e *ast.CallExpr, callee *types.Func, ca callA
 		if r, ok := u.sortSliceGeneric(st, e, ca); ok {
 			return r, true
 		}
+	case "(*bytes.Buffer).Len":
+		// the number of unread bytes: everything written minus everything read
+		u.checkNonNilTerm(st, *ca.recv, e, "receiver of "+u.exprTextShort(e.Fun))
+		r := u.freshOf(st, types.Typ[types.Int], "buflen")
+		w, rd := u.ghostCount(st, "written", ca.recv.S), u.ghostCount(st, "consumed", ca.recv.S)
+		if c.bv {
+			return Term{}, false
+		}
+		st.assume(eq(r.S, fmt.Sprintf("(- %s %s)", w, rd)))
+		return r, true
 	case "(*bytes.Buffer).Bytes":
 		// the unread portion of the buffer: the same slice value as long as nothing is written to or read from the buffer
 		// (a function of the buffer and its two ghost byte counters); content and length are not modelled
@@ -475,6 +485,18 @@ func (u *Unit) libModel(st *State, e *ast.CallExpr, callee *types.Func, ca callA
 		c.declareRaw(fn+".injective", fmt.Sprintf("(assert (forall ((x %s)) (! (= (%s.inv (%s x)) x) :pattern ((%s x)))))", cs, fn, fn, fn))
 		r := Term{S: fmt.Sprintf("(%s %s)", fn, ca.recv.S), T: sig.Results().At(0).Type()}
 		st.assume(c.idxLe(c.idxConst(0), "(gstr.len "+r.S+")"))
+		return r, true
+	case "strings.HasPrefix", "strings.HasSuffix":
+		// deterministic; true only if the string is at least as long as the prefix / suffix
+		fn := "gstr." + strings.ToLower(callee.Name())
+		c.declareFun(fn, "(Str Str) Bool")
+		r := fmt.Sprintf("(%s %s %s)", fn, ca.args[0].S, ca.args[1].S)
+		st.assume(implies(r, c.idxLe("(gstr.len "+ca.args[1].S+")", "(gstr.len "+ca.args[0].S+")")))
+		return Term{S: r, T: boolT}, true
+	case "strings.TrimRight", "strings.TrimLeft", "strings.Trim", "strings.TrimSpace", "strings.TrimPrefix", "strings.TrimSuffix":
+		// a substring: never longer than the argument
+		r := u.freshOf(st, sig.Results().At(0).Type(), "trim")
+		st.assume(and(c.idxLe(c.idxConst(0), "(gstr.len "+r.S+")"), c.idxLe("(gstr.len "+r.S+")", "(gstr.len "+ca.args[0].S+")")))
 		return r, true
 	case "(github.com/ipfs/go-cid.Cid).Equals":
 		// go-cid: func (c Cid) Equals(o Cid) bool { return c == o }
@@ -1227,6 +1249,10 @@ func (u *Unit) readAtModel(st *State, e *ast.CallExpr, r, p, off Term, sig *type
 	st.assume(implies(eq(err.S, "0"), eq(n.S, sLen(p.S))))
 	st.assume(implies(c.idxLt(zero, n.S), and(c.idxLe(zero, offI), c.idxLe(c.idxAdd(offI, n.S), "(rd.size "+r.S+")"))))
 	st.assume(u.externalErr(err.S))
+	// whether the whole range is delivered is a property of the reader and the range (spec builtin readfull): lets a
+	// contract say "if the bytes are delivered, the function succeeds" -- a legal ReaderAt may return len(p), io.EOF
+	c.declareFun("rd.full", "(Int "+c.idxSort()+" "+c.idxSort()+") Bool")
+	st.assume(eq(eq(n.S, sLen(p.S)), fmt.Sprintf("(rd.full %s %s %s)", r.S, offI, sLen(p.S))))
 	// faithful files (os.File, bytes.Reader, mmap, section readers over them): exactly min(len(p), size-off) bytes, EOF only when short
 	c.declareFun("rd.faithful", "(Int) Bool")
 	avail := c.idxSub("(rd.size "+r.S+")", offI)
